@@ -95,7 +95,7 @@ def make_all(targets=None):
     write_coqproject()
     rc, out = sh('coq_makefile -f _CoqProject -o Makefile >/dev/null 2>&1; timeout 3000 make -j%d %s 2>&1 | tail -40'
                  % (NPROC, ' '.join(targets or [])), cwd=COQ, timeout=3100)
-    ok = ('Error' not in out) and ('***' not in out)
+    ok = (re.search(r'(?m)^Error|Error:', out) is None) and ('***' not in out)
     if ok:
         rc2, out2 = sh('./build_modelrun.sh 2>&1', cwd=COQ, timeout=600)
         if rc2 != 0:
